@@ -213,6 +213,11 @@ pub fn make_module() -> KMap {
                 }
             }
             (Number(start), [Number(end), Number(step_by)]) => {
+                // A zero step would divide by zero, a negative step produced a negative step count
+                if !(*step_by > 0.0) {
+                    return runtime_error!("expected a positive step size");
+                }
+
                 if start.is_i64() && step_by.is_i64() {
                     KIterator::new(StepToI64Iterator::new(
                         start.into(),
